@@ -458,11 +458,13 @@ gi_extended = Contract("C10.GenomicIntervalsFull.extended_to_size", target=lambd
                        requires=lambda ctx, st: [st.m >= 0, Forall(lambda i: Implies(in_range(i, st.m), in_range(st.c0(i), st.n)), triggers=[st.c0], name="valid chromosome codes")],
                        ensures=lambda ctx, st, ret: [("extend_to_size receives the table, the length and one size per row", st.ext_args[0] is st.iv and st.ext_args[1] is st.L),
                                                      ("size.of.row.i.is.the.size.of.its.own.chromosome", Forall(lambda i: Implies(in_range(i, st.m), I(st.ext_args[2].at(i)) == st.size(st.c0(i))))),
-                                                     ("rows", I(st.ext_args[2].length) == st.m)],
+                                                     ("rows", I(st.ext_args[2].length) == st.m),
+                                                     ("the result is built with the strandedness of the receiver", st.fi_kwargs.get("is_stranded") is True)],
                        callees=dict(CALLEES, **{"bionumpy.streams.decorators.streamable.__call__.<locals>.new_func": _capture_extend,
                                                  "bionumpy.arithmetics.intervals.extend_to_size": _capture_extend,
-                                                 "bionumpy.genomic_data.genomic_intervals.GenomicIntervals.from_intervals": lambda ip, args, kwargs, lineno: Opaque("GenomicIntervals")}),
-                       canaries=[("genome size instead of chromosome sizes", "chrom_sizes = self._genome_context.global_offset.get_size(self._intervals.chromosome)", "chrom_sizes = self._genome_context.global_offset.get_size(self._intervals.chromosome[:1])")])
+                                                 "bionumpy.genomic_data.genomic_intervals.GenomicIntervals.from_intervals": lambda ip, args, kwargs, lineno: _hl["st"].__setattr__("fi_kwargs", dict(kwargs)) or Opaque("GenomicIntervals")}),
+                       canaries=[("strandedness not passed on", "self._genome_context, is_stranded=self.is_stranded())", "self._genome_context)"),
+                                 ("genome size instead of chromosome sizes", "chrom_sizes = self._genome_context.global_offset.get_size(self._intervals.chromosome)", "chrom_sizes = self._genome_context.global_offset.get_size(self._intervals.chromosome[:1])")])
 CONTRACTS += [loc_start, loc_stop, loc_center, loc_unstranded, gi_extended]
 
 
